@@ -1,6 +1,8 @@
-(* Proofs about the builder model (C12). *)
-From Coq Require Import List NArith ZArith Bool Lia Sorted.
-From Mamba Require Import Dawg.Model Dawg.Tree Dawg.Spec.
+(* Proofs about the builder model (C12): the invariant of the builder between Add calls and
+   what New / Finish return for a strictly increasing word list. *)
+From Coq Require Import List NArith ZArith Bool Lia Sorted FMapPositive.
+From Mamba Require Import Dawg.Model Dawg.Tree Dawg.Spec Dawg.TreeFacts Dawg.BuildStore Dawg.BuildSuffix
+  Dawg.BuildRor Dawg.BuildAdd.
 Import ListNotations.
 
 (* A rejected Add returns the builder it was given. *)
@@ -13,4 +15,130 @@ Proof.
           | context [bind ?r _] => destruct r; cbn [bind] in H
           | context [let '(_, _) := ?p in _] => destruct p
           end; try discriminate).
+Qed.
+
+(* [binv b ws]: b is the state of a builder to which exactly the words ws were added
+   successfully (in this order). *)
+Definition binv (b : builder) (ws : list word) : Prop :=
+  bdone b = false /\ reg_ok (bstore b) (breg b) /\ bound (bstore b) (blastid b) /\
+  exists v t, srep (bstore b) (breg b) root v t /\ tspine t v /\ good t /\ tlang t = ws /\
+    match blast b with
+    | Some v' => v' = v /\ exists ws0, ws = ws0 ++ [v]
+    | None => v = [] /\ tfin t = false /\ ws = []
+    end.
+
+Lemma binv_initialise : binv initialise [].
+Proof.
+  unfold binv, initialise. cbn [bdone bstore breg blastid blast].
+  split; [reflexivity|]. split; [|split].
+  - split; [|split]; [intros r []|intros r []|intros r1 r2 t []].
+  - intros i n H. destruct (N.eq_dec root i) as [<-|NE]; [unfold root; lia|].
+    rewrite sget_sset_other, sget_sempty in H; [discriminate|exact NE].
+  - exists [], (Node false 0 []). split; [|split; [|split; [|split]]].
+    + eapply srep_end' with (ch := []); [apply sget_sset_same|intros []|reflexivity|constructor|constructor|reflexivity].
+    + constructor.
+    + repeat split; constructor; try reflexivity; constructor.
+    + reflexivity.
+    + auto.
+Qed.
+
+Lemma rejects_false_rel : forall b w ws, binv b ws -> rejects b w = false ->
+  forall v t, srep (bstore b) (breg b) root v t -> 
+  match blast b with Some v' => v' = v | None => v = [] /\ tfin t = false end -> rel v w t.
+Proof.
+  intros b w ws _ Hrej v t _ Hm. unfold rejects in Hrej.
+  destruct (blast b) as [v'|].
+  - subst v'. left. unfold lex_lt. destruct (lex_compare v w); try discriminate. reflexivity.
+  - right. exact Hm.
+Qed.
+
+(* an Add that passes the order check succeeds and extends the word list *)
+Lemma add_accepted : forall b w ws, binv b ws -> rejects b w = false ->
+  exists b', add b w = Ok (b', true) /\ binv b' (ws ++ [w]) /\ blast b' = Some w.
+Proof.
+  intros b w ws HI Hrej.
+  pose proof HI as (Hd & HR & HB & v & t & HS & HT & HG & HL & Hm).
+  assert (HRel : rel v w t).
+  { eapply rejects_false_rel; eauto. destruct (blast b); [tauto|tauto]. }
+  assert (HF : (length v <= S (last_len b))%nat).
+  { unfold last_len. destruct (blast b) as [v'|]; [destruct Hm as [-> _]; lia|destruct Hm as [-> _]; simpl; lia]. }
+  destruct (add_from_spec w (S (last_len b)) _ _ _ root v t HR HB HS HT HG HRel HF)
+    as (s3 & reg3 & L3 & Hadd & HS3 & HR3 & HB3 & HL3 & Hincl & Hnew & Hfr).
+  rewrite add_unfold, Hd, Hrej, Hadd. cbn [bind].
+  eexists. split; [reflexivity|]. split; [|reflexivity].
+  unfold binv. cbn [bdone bstore breg blastid blast].
+  split; [reflexivity|]. split; [exact HR3|]. split; [exact HB3|].
+  exists w, (tadd w t). split; [exact HS3|]. split; [eapply tspine_tadd; eauto|].
+  split; [eapply good_tadd; eauto|]. split; [rewrite (tlang_tadd w t v HT HRel), HL; reflexivity|].
+  split; [reflexivity|]. exists ws. reflexivity.
+Qed.
+
+Lemma add_rejected : forall b w, rejects b w = true -> add b w = Ok (b, false).
+Proof. intros b w H. unfold add. destruct (bdone b); [reflexivity|]. rewrite H. reflexivity. Qed.
+
+(* ws may follow the previous word o *)
+Definition inc_after (o : option word) (ws : list word) : Prop :=
+  match ws with
+  | [] => True
+  | w :: _ => match o with Some v => lex_lt v w | None => True end /\ increasing ws
+  end.
+
+Lemma rejects_false_iff : forall b w,
+  rejects b w = false <-> match blast b with Some v => lex_lt v w | None => True end.
+Proof.
+  intros b w. unfold rejects, lex_lt. destruct (blast b) as [v|]; [|tauto].
+  destruct (lex_compare v w); split; intros; try discriminate; auto.
+Qed.
+
+Lemma add_all_spec : forall ws1 b ws0, binv b ws0 -> inc_after (blast b) ws1 ->
+  exists b', add_all b ws1 = Ok (Some b') /\ binv b' (ws0 ++ ws1).
+Proof.
+  induction ws1 as [|w ws1 IH]; intros b ws0 HI Hinc.
+  - exists b. rewrite app_nil_r. split; [reflexivity|exact HI].
+  - destruct Hinc as [Hfirst Hinc].
+    assert (Hrej : rejects b w = false) by (apply rejects_false_iff; exact Hfirst).
+    destruct (add_accepted b w ws0 HI Hrej) as (b1 & Hadd & HI1 & Hlast).
+    cbn [add_all]. rewrite Hadd. cbn [bind].
+    destruct (IH b1 (ws0 ++ [w]) HI1) as (b' & Hall & HI').
+    { rewrite Hlast. destruct ws1 as [|w' ws1']; [exact I|]. simpl in Hinc. destruct Hinc as [H1 H2].
+      split; [exact H1|exact H2]. }
+    exists b'. split; [exact Hall|]. rewrite <- app_assoc in HI'. exact HI'.
+Qed.
+
+(* the finished automaton: the root is the only unregistered node *)
+Definition final_ok (s : store) (ws : list word) : Prop :=
+  exists reg t, reg_ok s reg /\ srep s reg root [] t /\ good t /\ tlang t = ws.
+
+Lemma finish_spec : forall b ws, binv b ws -> exists s, finish b = Ok (Some s) /\ final_ok s ws.
+Proof.
+  intros b ws (Hd & HR & HB & v & t & HS & HT & HG & HL & Hm).
+  unfold finish. rewrite Hd.
+  pose proof (srep_node _ _ _ _ _ HS) as (n & Hn & _ & _ & _ & Hlen).
+  rewrite (deref_ok _ _ _ Hn). cbn [bind].
+  destruct v as [|c v'].
+  - destruct t as [f nw ch]. pose proof (tspine_nil_inv _ _ _ HT) as ->. cbn [tch length] in Hlen.
+    destruct (nkids n); [|discriminate].
+    exists (bstore b). split; [reflexivity|]. exists (breg b), (Node f nw []). auto.
+  - destruct t as [f nw ch]. pose proof (tspine_cons_inv _ _ _ _ _ HT) as (a & tk & -> & _).
+    cbn [tch] in Hlen. rewrite app_length in Hlen. cbn [length] in Hlen.
+    destruct (nkids n) as [|kk kks]; [simpl in Hlen; lia|].
+    assert (HGk : kids_good (Node f nw (a ++ [(c, tk)]))).
+    { unfold kids_good. cbn [tch]. eapply good_children; eauto. }
+    assert (HF : (length v' < S (last_len b))%nat).
+    { unfold last_len. destruct (blast b) as [v0|]; [destruct Hm as [-> _]; simpl; lia|destruct Hm as [E _]; discriminate]. }
+    destruct (ror_spec v' (S (last_len b)) _ _ root _ c HR HS HT HGk HF)
+      as (s' & reg' & Hror & HS' & HR' & _).
+    rewrite Hror. cbn [bind fst].
+    exists s'. split; [reflexivity|]. exists reg', (Node f nw (a ++ [(c, tk)])). auto.
+Qed.
+
+Lemma increasing_inc_after : forall ws, increasing ws -> inc_after None ws.
+Proof. intros [|w ws] H; simpl; auto. Qed.
+
+Theorem new_dawg_spec : forall ws, increasing ws -> exists s, new_dawg ws = Ok (Some s) /\ final_ok s ws.
+Proof.
+  intros ws Hinc. unfold new_dawg.
+  destruct (add_all_spec ws initialise [] binv_initialise) as (b & Hall & HI).
+  { apply increasing_inc_after. exact Hinc. }
+  rewrite Hall. cbn [bind]. apply finish_spec. exact HI.
 Qed.
